@@ -56,6 +56,10 @@ func (t Triangle) sides() (Vec, Vec, Vec) {
 // IsDegenerate returns true if all of triangle's vertices are
 // within tol distance of its longest side.
 func (t Triangle) IsDegenerate(tol float64) bool {
+	if t[0] == t[1] && t[1] == t[2] {
+		// All vertices coincide: there is no longest side to measure from.
+		return tol >= 0
+	}
 	sides := [3]Vec{Sub(t[1], t[0]), Sub(t[2], t[1]), Sub(t[0], t[2])}
 	len2 := [3]float64{Norm2(sides[0]), Norm2(sides[1]), Norm2(sides[2])}
 	longLen := len2[0]
